@@ -152,6 +152,9 @@ func encodeTop(vc *VC, fn *ssa.Function, d *Decl) []inputVar {
 		if pname == "_" || pname == "" {
 			pname = fmt.Sprintf("$arg%d", pi)
 		}
+		if preludeSyms[pname] { // |base| and the prelude's base are the same SMT symbol
+			pname += "$go"
+		}
 		c := vc.declare("|"+pname+"|", vc.sortOf(p.Type()))
 		fr.vals[p] = c
 		for _, f := range fr.typeFacts(st, p.Type(), c, true) {
